@@ -19,7 +19,8 @@ open OllamaVerif.Memory
 /-- per-GPU layer counts of the plan (what `TensorSplit` prints when there are ≥ 2 GPUs) -/
 def planCounts (inp : Inp) : List Nat := (plan (mkCore inp) inp.gpus).gs.map (·.count)
 
-/-- **The no-wrap guard** (theorems below are about the pinned code, `inp.ovSafe = false`), a decidable predicate on the estimator's inputs (through the
+/-- **The no-wrap guard** (both code variants; in the fixed variant `ovSafe = true` the overhead
+    term is absent, see `Room`), a decidable predicate on the estimator's inputs (through the
     constants `mkCore` derives from them, each already a uint64):
     * for every GPU `g` and every layer size `L` the estimator may try on it (each block's
       `layerSize`, and the output layer):
@@ -160,11 +161,11 @@ theorem cpu_zero (inp : Inp) (h : inp.lib = Lib.cpu) :
     size `a`: either nothing at all was put on it (`a = 0`, the GPU was not admitted) or
     `a + overhead ≤ free`; and strictly below for every GPU that received a layer.  (`a` includes
     the GPU minimum, the one-layer buffer, gpu-zero projector overhead, layers, graph.) -/
-theorem alloc_le_free_partial (inp : Inp) (hv : inp.ovSafe = false) (hnw : NoWrap inp) (i : Nat) (g : Gpu) (a : Nat)
+theorem alloc_le_free_partial (inp : Inp) (hnw : NoWrap inp) (i : Nat) (g : Gpu) (a : Nat)
     (hg : inp.gpus[i]? = some g) (ha : (estimate inp).sizes[i]? = some a) :
     (a = 0 ∨ a + inp.overhead ≤ g.free) ∧
     (∀ n, (planCounts inp)[i]? = some n → 0 < n → a + inp.overhead < g.free) := by
-  obtain ⟨hfin, hfree⟩ := plan_final (mkCore inp) (by rw [mkCore_ovSafe]; exact hv) inp.gpus hnw.1
+  obtain ⟨hfin, hfree⟩ := plan_final (mkCore inp) inp.gpus hnw.1
   obtain ⟨_, hc | hc⟩ := estimate_cases inp
   · rw [hc.2.2.2.2.1] at ha; simp at ha
   · rw [hc.2.2.2.2.1, List.getElem?_map] at ha
@@ -186,10 +187,10 @@ theorem alloc_le_free_partial (inp : Inp) (hv : inp.ovSafe = false) (hnw : NoWra
       exact hok.2 (by omega)
 
 /-- **TotalSize ≥ VRAMSize**, and VRAMSize is the exact sum of the per-GPU sizes. -/
-theorem total_ge_vram_partial (inp : Inp) (hv : inp.ovSafe = false) (hnw : NoWrap inp) :
+theorem total_ge_vram_partial (inp : Inp) (hnw : NoWrap inp) :
     (estimate inp).vram ≤ (estimate inp).total ∧
     (0 < (estimate inp).layers → (estimate inp).vram = (estimate inp).sizes.sum) := by
-  obtain ⟨hfin, hfree⟩ := plan_final (mkCore inp) (by rw [mkCore_ovSafe]; exact hv) inp.gpus hnw.1
+  obtain ⟨hfin, hfree⟩ := plan_final (mkCore inp) inp.gpus hnw.1
   have hov := plan_overflow_le (mkCore inp) inp.gpus
   have hle := sum_alloc_le (plan (mkCore inp) inp.gpus).gs (fun s hs => (hfin s hs).alloc_le)
   rw [hfree] at hle
@@ -290,6 +291,54 @@ theorem W1_overhead_wraps :
     ¬ NoWrap (w1 18446744073709551606) ∧
     (estimate (w1 50)).sizes = [21] ∧ NoWrap (w1 50) ∧
     (estimate (w1 90)).layers = 0 := by decide
+
+/-! ### the fixed variant (proposed fix C16-W1): the overhead is in no sum -/
+
+/-- In the fixed variant the guard does not depend on the overhead at all. -/
+theorem noWrap_fixed_any_overhead (inp : Inp) (hv : inp.ovSafe = true) (o : Nat) :
+    NoWrap inp ↔ NoWrap { inp with overhead := o } := by
+  have hc : mkCore { inp with overhead := o } = { mkCore inp with overhead := o } := by
+    simp [mkCore, projTotals, graphs, layer0, memOut, kvTotal]
+  have hvc : (mkCore inp).ovSafe = true := by rw [mkCore_ovSafe]; exact hv
+  unfold NoWrap RoomAll
+  rw [hc]
+  simp only [Room, hvc, ↓reduceIte, lastLayer, Core.maxg]
+
+/-- **Fixed variant: the allocation clause for every overhead.**  With fix C16-W1 applied, if the
+    remaining sums (`gzo + max(gP,gF) + minimum + 2*layer0 + free + L`, none of which contains the
+    overhead) stay below 2^64 for overhead 0, then for *every* value of `OLLAMA_GPU_OVERHEAD` each
+    reported size is 0 or `size + overhead ≤ free`. -/
+theorem alloc_le_free_fixed (inp : Inp) (hv : inp.ovSafe = true)
+    (hnw : NoWrap { inp with overhead := 0 }) (i : Nat) (g : Gpu) (a : Nat)
+    (hg : inp.gpus[i]? = some g) (ha : (estimate inp).sizes[i]? = some a) :
+    (a = 0 ∨ a + inp.overhead ≤ g.free) ∧
+    (∀ n, (planCounts inp)[i]? = some n → 0 < n → a + inp.overhead < g.free) := by
+  have h : NoWrap inp := by
+    have := (noWrap_fixed_any_overhead { inp with overhead := 0 } hv inp.overhead).mp hnw
+    exact this
+  exact alloc_le_free_partial inp h i g a hg ha
+
+/-- the W1 input under the fixed variant: nothing is planned, for the wrapping overhead too -/
+theorem W1_fixed_variant :
+    (estimate { w1 18446744073709551606 with ovSafe := true }).layers = 0 ∧
+    (estimate { w1 18446744073709551606 with ovSafe := true }).sizes = [] ∧
+    NoWrap { w1 18446744073709551606 with ovSafe := true } ∧
+    (estimate { w1 50 with ovSafe := true }).sizes = [21] := by decide
+
+/-- 10 blocks of 10 bytes, one GPU with 100 bytes free, partial-offload graph figure 2^64 - 15 -/
+def w2 : Inp :=
+  { lib := .other, gpus := [⟨100, 0⟩], overhead := 0, projs := [], vision := (0, 0),
+    blk0 := some 10, blocks := List.replicate 10 (some 10, 0), graphPartial := 18446744073709551601,
+    graphFull := 1, gqa := 1, outNorm := none, output := none, tokenEmbd := none, numGPU := -1,
+    ovSafe := true }
+
+/-- **The remaining guard is needed after the fix.**  A graph-size figure near 2^64 (reachable
+    only through wrapped `GraphSize` arithmetic, e.g. an absurd `num_ctx`) makes the admission sum
+    `gzo+graph+min+2*layer` and every placement sum `used+layer` wrap: all 10 layers go to a GPU
+    with 100 bytes free (111 bytes planned), in the fixed variant as well as in the pinned one. -/
+theorem W2_graph_wraps_fixed :
+    (estimate w2).layers = 10 ∧ (estimate w2).sizes = [111] ∧ ¬ NoWrap w2 ∧
+    (estimate { w2 with ovSafe := false }).sizes = [111] := by decide
 
 /-- a two-GPU, three-block model with an output layer, uneven layers -/
 def ex2 : Inp :=
